@@ -5,7 +5,8 @@ from concurrent.futures import ThreadPoolExecutor
 
 import common as C
 
-COMPOSITIONS = ["scipy_ufunc_transformer", "random_state_instance", "scipy_ufunc_transformer", "random_state_instance",
+COMPOSITIONS = ["grid_search_structured", "sparse_svm", "grid_search_structured", "sparse_svm",
+                "scipy_ufunc_transformer", "random_state_instance", "scipy_ufunc_transformer", "random_state_instance",
                 "pipeline", "column_transformer", "feature_union", "grid_search", "voting", "stacking", "bagging", "function_transformer",
                 "class_weight_dict"]
 # always part of the quick subset: one estimator per reassembly mechanism / payload kind
@@ -37,7 +38,7 @@ def make_jobs(R, names):
             jobs.append({"name": n, "draw": rnd.randint(1, 9), "data": rnd.choice(["dense", "sparse", "multi", "nonneg"]), "fitted": True, "seed": rnd.randint(0, 999)})
         for n in rnd.sample(subset, 12):
             jobs.append({"name": n, "draw": rnd.randint(0, 3), "data": "dense", "fitted": False, "seed": rnd.randint(0, 999)})
-        comps = COMPOSITIONS + [rnd.choice(COMPOSITIONS) for _ in range(20 - len(COMPOSITIONS))]
+        comps = COMPOSITIONS + [rnd.choice(COMPOSITIONS) for _ in range(24 - len(COMPOSITIONS))]
         for k in comps:
             jobs.append({"comp": k, "data": "dense", "fitted": True, "seed": rnd.randint(0, 999)})
     else:
